@@ -1,6 +1,7 @@
 import Soa.Model.Vec
 import Soa.Spec.Vec
 import Soa.Model.IndexRun
+import Soa.Extracted.Generic
 /-!
 # Scenario interpreter: one operation per line, one observation line per side
 
@@ -140,7 +141,7 @@ def keepFn (mask : String) : Nat → Bool :=
 def touchFn (wleaf : Option Nat) (wtag : Nat) : Nat → Nat → Option (Nat × Nat) :=
   fun k _pos => wleaf.map (fun l => (l, ((wtag + k) % 32) * 8 + l))
 
-def step (cx : Ctx) (w : World) (ws : List String) : StepOut :=
+def stepCore (cx : Ctx) (w : World) (ws : List String) : StepOut :=
   let sh := cx.shape
   let dr := cx.drops
   let nl := cx.kinds.length
@@ -354,6 +355,112 @@ def step (cx : Ctx) (w : World) (ws : List String) : StepOut :=
     | _, _, _ => badOp w
   | _ => badOp w
 
+def parseBound (s : String) : Option Bounds.Bound :=
+  if s == "unb" then some .unb else
+  match s.splitOn ":" with
+  | ["inc", v] => v.toNat?.map .inc
+  | ["exc", v] => v.toNat?.map .exc
+  | _ => none
+
+/-- element access through the index layer at one position (`get`/`index`, shared or mut) -/
+def posAccess (cx : Ctx) (w : World) (r : Nat) (k : IdxIR.Kind) (m : IdxIR.M) (i : Nat) : Obs × Obs :=
+  let c := w.regs.getD r cx.shape.empty
+  let rs := w.rows.getD r []
+  let res := IdxIR.run cx.prof c.firstLen (toIdxShape cx.shape) k { form := .pos, pos := i } m
+  let ci := cx.maskCols c.leaves
+  let cs := cx.maskCols (rowsCols cx.kinds.length rs)
+  let getting := m == .get || m == .getMut
+  let row (cols : List (List Nat)) (s : Nat) : String := fmtNats (cols.map (fun col => col.getD s 0))
+  let oi : Obs := match res with
+    | .ok (.some_ (.win s _)) => { status := "ok", ret := "some" ++ row ci s }
+    | .ok .none_ => { status := "ok", ret := "none" }
+    | .ok (.win s _) => { status := "ok", ret := row ci s }
+    | .err .panic => { status := "panic" }
+    | .err .ub => { status := "ub" }
+    | _ => { status := "stuck" }
+  let os : Obs := match rs[i]?, getting with
+    | some _, true => { status := "ok", ret := "some" ++ row cs i }
+    | none, true => { status := "ok", ret := "none" }
+    | some _, false => { status := "ok", ret := row cs i }
+    | none, false => { status := "panic" }
+  (oi, os)
+
+/-- operations dispatched through the generic traits.  The generated trait methods forward to
+    the inherent method of the same name (`C09.forwarding`, checked on the extracted table);
+    `first`/`last` are the provided `get(0)` / `get(len.saturating_sub(1))`; `slice`/`slice_mut`
+    run the extracted `RangeBounds` conversion. -/
+def step (cx : Ctx) (w : World) (ws : List String) : StepOut :=
+  match ws with
+  | ["tnew", r] => stepCore cx w ["new", r]
+  | ["tlen", r, _kind] =>
+    match parseReg r with
+    | some r =>
+      let c := w.regs.getD r cx.shape.empty
+      let rs := w.rows.getD r []
+      { w, i := { status := "ok", ret := s!"{c.firstLen}/{c.firstLen == 0}" },
+        s := { status := "ok", ret := s!"{rs.length}/{rs.length == 0}" } }
+    | none => badOp w
+  | "tget" :: r :: kind :: m :: rest =>
+    match parseReg r with
+    | some r =>
+      let c := w.regs.getD r cx.shape.empty
+      let n := c.firstLen
+      let i : Option Nat := match m, rest with
+        | "first", [] | "first_mut", [] => some 0
+        | "last", [] | "last_mut", [] => some (n - 1)
+        | _, [i] => i.toNat?
+        | _, _ => none
+      let isMut := m == "get_mut" || m == "index_mut" || m == "first_mut" || m == "last_mut"
+      let getting := !(m == "index" || m == "index_mut")
+      let k : Option IdxIR.Kind := match kind, isMut with
+        | "vec", false => some .vecRef | "vec", true => some .vecMut
+        | "slice", false => some .slice | "slicemut", false => some .slice | "slicemut", true => some .sliceMut
+        | _, _ => none
+      match i, k with
+      | some i, some k =>
+        let mm : IdxIR.M := match getting, isMut with
+          | true, false => .get | true, true => .getMut | false, false => .index | false, true => .indexMut
+        let (oi, os) := posAccess cx w r k mm i
+        -- the mirror's first/last are std's own
+        let rs := w.rows.getD r []
+        let os := if m == "last" || m == "last_mut" then
+            (match rs.getLast? with
+             | some _ => os
+             | none => { status := "ok", ret := "none" })
+          else os
+        { w, i := oi, s := os }
+      | _, _ => badOp w
+    | none => badOp w
+  | ["bounds", r, kind, mode, sb, eb] =>
+    match parseReg r, parseBound sb, parseBound eb with
+    | some r, some sb, some eb =>
+      let name := match kind, mode with
+        | "vec", "shared" => "SoAVec::slice" | "vec", "mut" => "SoAVec::slice_mut"
+        | "slice", "shared" => "SoASlice::slice" | "slicemut", "shared" => "SoASliceMut::slice"
+        | "slicemut", "mut" => "SoASliceMut::slice_mut" | _, _ => ""
+      match Extracted.convs.find? (·.name == name) with
+      | some cv =>
+        let c := w.regs.getD r cx.shape.empty
+        let rs := w.rows.getD r []
+        let res := cv.run cx.prof c.firstLen (toIdxShape cx.shape) sb eb
+        let win (cols : List (List Nat)) (s l : Nat) : String := fmtCols (cols.map (fun col => (col.drop s).take l))
+        let oi : Obs := match res with
+          | .ok (.win s l) => { status := "ok", ret := win (cx.maskCols c.leaves) s l ++ " inb=true" }
+          | .err .panic => { status := "panic" }
+          | .err .ub => { status := "ub" }
+          | _ => { status := "stuck" }
+        let os : Obs := match Bounds.stdBounds rs.length sb eb with
+          | some (s, l) => { status := "ok", ret := win (cx.maskCols (rowsCols cx.kinds.length rs)) s l ++ " inb=true" }
+          | none => { status := "panic" }
+        { w, i := oi, s := os }
+      | none => badOp w
+    | _, _, _ => badOp w
+  | op :: rest =>
+    if ["tpush", "tpop", "tinsert", "tremove", "tswap_remove", "treplace", "ttruncate", "tclear", "tappend", "tsplit_off"].contains op
+    then stepCore cx w ((op.drop 1).toString :: rest)
+    else stepCore cx w ws
+  | [] => badOp w
+
 def Ctx.fmtRegsI (cx : Ctx) (w : World) : String :=
   ";".intercalate (w.regs.map (fun c => fmtCols (cx.maskCols c.leaves)))
 def Ctx.fmtRegsS (cx : Ctx) (w : World) : String :=
@@ -367,7 +474,7 @@ def stepLines (cx : Ctx) (w : World) (n : Nat) (line : String) : World × String
   let li := (w.li.add cx r.madeI (r.i.ev ++ r.i.rev))
   let ls := (w.ls.add cx r.madeI (r.s.ev ++ r.s.rev))
   let w' := { r.w with li, ls }
-  let pure := ["get", "index", "len", "is_empty", "view", "iter", "bounds", "tget", "ptr", "refs"].contains (ws.headD "")
+  let pure := ["get", "index", "len", "is_empty", "view", "iter", "bounds", "tget", "tlen", "ptr", "refs"].contains (ws.headD "")
   if pure then (w', s!"I {n} {cx.fmtObs r.i} regs=~", s!"S {n} {cx.fmtObs r.s} regs=~") else
   (w', s!"I {n} {cx.fmtObs r.i} regs={cx.fmtRegsI w'}", s!"S {n} {cx.fmtObs r.s} regs={cx.fmtRegsS w'}")
 
